@@ -140,3 +140,18 @@ func init() {
 			c.Note("not decided: termination (a huge count with zero-width items loops for a long time), panics inside compress/flate, snappy, json; recursion depth")
 		})
 }
+
+func init() {
+	register("C10",
+		"Decides ownership clauses of C10 from the source: no view of the block buffer (a result of ReadBuf.Next, a sub-slice of ReadBuf.buf, or an unsafe string view of either) is stored into the destination, a bank, a map or returned — it is only indexed, copied from, converted by copy, or handed to functions that do the same (AL-BUF, interprocedural over module callees); the decompressor's reusable result is used only as the read buffer (AL-BLOCK); interned strings view the bank's own append-only store, whose earlier bytes are never rewritten and which only Close truncates (AL-STR); a bank allocation returns array + index*size for the pre-increment index, increments on every path, grows into a new typed array of the recorded capacity, and clears the slot with its own type first (AL-BUMP, AL-CLR); Close only resets (AL-CLOSE); each callback gets a bank extracted in the same iteration and extraction installs a fresh one (OD-BANK); banks share no package state but the pool (LK-POOL, LK-GLOBAL). "+
+			"Not decided: interleavings of user-side Close calls (a double close is a user error the code cannot see).",
+		func(c *Ctx) {
+			ruleALBuf(c)
+			ruleALBlock(c)
+			ruleALStr(c)
+			ruleALBump(c)
+			ruleODBank(c, findReadFile(c.P))
+			ruleLKPool(c)
+			ruleLKGlobal(c)
+		})
+}
